@@ -1,14 +1,181 @@
-import RtenVerif.Lemmas.Npy
+import RtenVerif.Lemmas.NpyRead
+import RtenVerif.Lemmas.NpyTotal
+import RtenVerif.Lemmas.NpyNpz
 
 /-!
 # C34 — Tensor file formats round-trip and reject malformed files
+
+Property theorems over `RtenVerif/Model/Npy.lean`, the byte-level model of
+`rten-serialize/src/npy.rs` (+ `npy/dtype.rs`, the name handling of `npz.rs`).
+Bytes are `Nat`s; `usizeLimit = 2^64`, `isizeLimit = 2^63`.
+
+The model is of the code **after** the three `fix:` commits recorded in `findings/C34.json`
+(the full round-trip statement T2 was false before them: the reader capped arrays at 4 GiB
+although the writer does not, see below).
 -/
 namespace RtenVerif.Npy
 
-/-- Decimal printer/parser round trip used by the shape tuple. -/
+/-! ## T1 — `parse_header (build_header dt shape) = (dt, C order, shape)` -/
+
+/-- **C34.T1a** The header parser inverts the dictionary printer — for every element type, every
+shape (every rank, every dim that fits `usize`) and any padding/trailing text. -/
+theorem c34_parse_header_dict (dt : DataType) (shape : List Nat)
+    (hall : ∀ d ∈ shape, d < usizeLimit) (tail : List Nat) :
+    parseHeaderRest (dictText dt shape ++ tail) =
+      .ok (⟨⟨false, dt.kind, dt.itemSize⟩, false, shape⟩, tail) :=
+  parseHeaderRest_dictText dt shape hall tail
+
+/-- **C34.T1b** File level: `read_header` on `build_header`'s bytes followed by arbitrary data
+returns the written type/order/shape, maps back to the same `DataType`, and leaves exactly the
+data unread. -/
+theorem c34_read_header_build_header (dt : DataType) (shape data hdr : List Nat)
+    (hall : ∀ d ∈ shape, d < usizeLimit) (hb : buildHeader dt shape = .ok hdr) :
+    readHeader (hdr ++ data) = .ok (⟨⟨false, dt.kind, dt.itemSize⟩, false, shape⟩, data) ∧
+    dataTypeOf ⟨false, dt.kind, dt.itemSize⟩ = some dt :=
+  ⟨readHeader_buildHeader dt shape data hdr hall hb, dataTypeOf_descr dt⟩
+
+-- non-vacuity: a rank-3 shape with a zero and a huge dim
+example : ∃ hdr, buildHeader .f32 [0, 7, 2 ^ 64 - 1] = .ok hdr :=
+  buildHeader_ok_of_rank .f32 [0, 7, 2 ^ 64 - 1] (by decide) (by decide)
+
+/-- **C34.T1c** `build_header` succeeds for every shape of rank ≤ 2900 and its output is padded to
+a multiple of 64 bytes. (The only failure of the writer is the `u16` length field:
+`c34_header_too_large_witness`.) -/
+theorem c34_build_header_ok (dt : DataType) (shape : List Nat) (h : ∀ d ∈ shape, d < usizeLimit)
+    (hr : shape.length ≤ 2900) : ∃ hdr, buildHeader dt shape = .ok hdr ∧ hdr.length % 64 = 0 := by
+  obtain ⟨hdr, hb⟩ := buildHeader_ok_of_rank dt shape h hr
+  exact ⟨hdr, hb, buildHeader_aligned dt shape hdr hb⟩
+
+/-- **C34.T1d (negation witness for "write succeeds on every tensor")** every shape of rank
+≥ 21846 is refused by the writer (`u16` length of format 1.0). Documented in the code; recorded as
+an open finding because the property text promises a round trip for any tensor. -/
+theorem c34_header_too_large_witness (dt : DataType) (shape : List Nat) (hr : 21846 ≤ shape.length) :
+    buildHeader dt shape = .error .headerTooLarge ∧ write ⟨dt, shape, []⟩ = .error .headerTooLarge := by
+  have := buildHeader_too_large dt shape hr
+  exact ⟨this, by simp [write, this]⟩
+
+theorem c34_write_any_false :
+    ¬ ∀ (dt : DataType) (shape : List Nat), ∃ hdr, buildHeader dt shape = .ok hdr := by
+  intro h
+  obtain ⟨hdr, hh⟩ := h .i8 (List.replicate 21846 1)
+  rw [buildHeader_too_large .i8 _ (by rw [List.length_replicate]; exact Nat.le_refl _)] at hh
+  cases hh
+
+/-- Decimal printer/parser round trip used by the shape tuple (`usize::to_string` then
+`parse_usize`), for every `n < 2^64` and any following non-digit. -/
 theorem c34_usize_round_trip (n : Nat) (rest : List Nat) (hn : n < usizeLimit)
     (hr : ∀ b, rest.head? = some b → isDigit b = false) :
     parseUsize (natDigits n ++ rest) = .ok (n, rest) :=
   parseUsize_natDigits n rest hn hr
+
+example : parseUsize (natDigits 18446744073709551615 ++ [44, 32]) = .ok (18446744073709551615, [44, 32]) :=
+  c34_usize_round_trip _ _ (by decide) (by decide)
+
+/-! ## T2 — element codecs and `read (write t) = t` -/
+
+/-- **C34.T2a** `from_le_bytes (to_le_bytes x) = x` for every `w`-byte pattern, and
+`to_le_bytes (from_le_bytes bs) = bs` for every `w`-byte string: the codecs are mutually inverse
+bijections between `[0, 256^w)` and byte strings of length `w`. -/
+theorem c34_le_bijection (w : Nat) :
+    (∀ x, x < 256 ^ w → fromLE (toLE w x) = x ∧ (toLE w x).length = w ∧ ∀ b ∈ toLE w x, b < 256) ∧
+    (∀ bs : List Nat, bs.length = w → (∀ b ∈ bs, b < 256) →
+      toLE w (fromLE bs) = bs ∧ fromLE bs < 256 ^ w) := by
+  constructor
+  · intro x hx
+    exact ⟨fromLE_toLE w x hx, toLE_length w x, toLE_lt w x⟩
+  · intro bs hl hb
+    subst hl
+    exact ⟨toLE_fromLE bs hb, fromLE_lt bs hb⟩
+
+/-- The same for Lean's fixed-width machine integers. -/
+theorem c34_le_round_trip_uint :
+    (∀ x : UInt8, fromLE (toLE 1 x.toNat) = x.toNat) ∧ (∀ x : UInt16, fromLE (toLE 2 x.toNat) = x.toNat) ∧
+    (∀ x : UInt32, fromLE (toLE 4 x.toNat) = x.toNat) ∧ (∀ x : UInt64, fromLE (toLE 8 x.toNat) = x.toNat) :=
+  ⟨fun x => fromLE_toLE 1 _ (by have := x.toNat_lt; omega),
+   fun x => fromLE_toLE 2 _ (by have := x.toNat_lt; omega),
+   fun x => fromLE_toLE 4 _ (by have := x.toNat_lt; omega),
+   fun x => fromLE_toLE 8 _ (by have := x.toNat_lt; omega)⟩
+
+/-- **C34.T2b** Per-dtype element round trip (bool is `b != 0` on `bool as u8`). -/
+theorem c34_elem_round_trip (dt : DataType) (x : Nat) (h : ValidElem dt x) :
+    decodeElem dt (encodeElem dt x) = x ∧ (encodeElem dt x).length = dt.itemSize :=
+  ⟨decode_encode dt x h, encodeElem_length dt x⟩
+
+/-- **C34.T2** `read (write a) = a` for every element type, every shape whose non-zero dims
+multiply to at most `isize::MAX` (the tensor library's own limit on any tensor or view) and
+every element list in logical order. `hbytes` only excludes broadcast views of more than
+`usize::MAX` bytes, which cannot be written in finite time. No 4 GiB bound: see the findings. -/
+theorem c34_read_write (a : Array) (file : List Nat)
+    (hshape : prod (a.shape.map (fun d => max d 1)) < isizeLimit)
+    (hbytes : prod a.shape * a.dtype.itemSize < usizeLimit)
+    (hlen : a.vals.length = prod a.shape)
+    (hvals : ∀ x ∈ a.vals, ValidElem a.dtype x)
+    (hw : write a = .ok file) : read file = .ok a :=
+  read_write a file hshape hbytes hlen hvals hw
+
+-- non-vacuity: a 2x0x3 (empty) and a 2x2 tensor meet the hypotheses and are written
+example : ∃ f, write ⟨.i16, [2, 2], [1, 65535, 0, 258]⟩ = .ok f ∧ read f = .ok ⟨.i16, [2, 2], [1, 65535, 0, 258]⟩ := by
+  obtain ⟨f, hf⟩ := write_ok_of_rank ⟨.i16, [2, 2], [1, 65535, 0, 258]⟩ (by decide) (by decide)
+  exact ⟨f, hf, c34_read_write _ f (by decide) (by decide) (by decide) (by decide) hf⟩
+example : ∃ f, write ⟨.bool, [2, 0, 3], []⟩ = .ok f ∧ read f = .ok ⟨.bool, [2, 0, 3], []⟩ := by
+  obtain ⟨f, hf⟩ := write_ok_of_rank ⟨.bool, [2, 0, 3], []⟩ (by decide) (by decide)
+  exact ⟨f, hf, c34_read_write _ f (by decide) (by decide) (by decide) (by decide) hf⟩
+
+/-! ## T3 — the parser is total and consumes its input monotonically -/
+
+/-- **C34.T3** For every byte string: the two loops of the header parser never exhaust the fuel
+`input length + 1` (so the Rust loops terminate and `Err.fuel` is unreachable: the result is a
+header or one of the real error classes), and what an accepted parse leaves unread is a strict
+suffix of the input. -/
+theorem c34_parser_total (inp : List Nat) :
+    parseHeader inp ≠ .error .fuel ∧ parseHeaderRest inp ≠ .error .fuel ∧
+    (∀ h rest, parseHeaderRest inp = .ok (h, rest) → rest <:+ inp ∧ rest.length < inp.length) :=
+  ⟨parseHeader_ne_fuel inp, parseHeaderRest_ne_fuel inp, fun _ _ hp => parseHeaderRest_ssuffix hp⟩
+
+/-- Same for the whole reader: `npy::read` returns a value or a genuine error on every file. -/
+theorem c34_read_total (file : List Nat) : read file ≠ .error .fuel :=
+  read_ne_fuel file
+
+/-- The shape-tuple loop on its own (used inside `c34_parser_total`). -/
+theorem c34_shape_loop_total (fuel : Nat) (inp : List Nat) :
+    (∀ vs r, shapeLoop fuel inp = .ok (vs, r) → r <:+ inp ∧ r.length < inp.length) ∧
+    (inp.length < fuel → shapeLoop fuel inp ≠ .error .fuel) :=
+  shapeLoop_spec fuel inp
+
+/-! ## T4 — accepted files -/
+
+/-- **C34.T4** If `read` accepts a file then: the header parsed, the shape's non-zero dims multiply
+to at most `isize::MAX` (no stride or count can overflow), the byte count fits `usize`, that many
+bytes were actually present after the header, and exactly `∏ shape` elements are returned. -/
+theorem c34_read_ok_sizes (file : List Nat) (a : Array) (h : read file = .ok a) :
+    ∃ hd data, readHeader file = .ok (hd, data) ∧ dataTypeOf hd.dtype = some a.dtype ∧
+      a.shape = hd.shape ∧
+      prod (a.shape.map (fun d => max d 1)) < isizeLimit ∧
+      prod a.shape * a.dtype.itemSize < usizeLimit ∧
+      prod a.shape * a.dtype.itemSize ≤ data.length ∧
+      a.vals.length = prod a.shape :=
+  read_ok_sizes file a h
+
+/-- Size guard, concretely: a zero dimension does not mask huge ones (the pre-fix code accepted
+this header and built a tensor with wrapped strides). Complete evaluation of the model. -/
+theorem c34_zero_times_huge_rejected :
+    readTyped ⟨⟨false, 105, 4⟩, false, [0, 2 ^ 32, 2 ^ 32]⟩ .i32 [] = .error .countOverflow := by
+  rfl
+
+/-! ## npz entry names -/
+
+/-- **C34.N1** `npz_file_name` yields `base.npy` (non-empty base) for a name given with or without
+the suffix; it is idempotent; and `npz::read` reports the entry under `base`. So a tensor written
+as `name` is found again by `read_array(name)`, `read_array(file name)` and under the stripped key. -/
+theorem c34_npz_names (name f : List Nat) (h : npzFileName name = some f) :
+    ∃ base, base ≠ [] ∧ f = base ++ npySuffix ∧ (name = base ∨ name = base ++ npySuffix) ∧
+      npzFileName f = some f ∧ npzKey f = some base := by
+  obtain ⟨base, hne, hf, hn⟩ := npzFileName_some h
+  refine ⟨base, hne, hf, hn, ?_, ?_⟩
+  · rw [hf]; exact npzFileName_base base hne
+  · rw [hf]; exact stripNpy_append base
+
+example : npzFileName [97] = some [97, 46, 110, 112, 121] := by decide
+example : npzFileName [46, 110, 112, 121] = none := by decide
 
 end RtenVerif.Npy
